@@ -47,3 +47,40 @@ Theorem C10_sequence : forall w gen a s b,
   gen_list w gen s (a ++ b) =
   (do x <- gen_list w gen s a; do y <- gen_list w gen (fst x) b; Ok (fst y, snd x ++ snd y)).
 Proof. exact gen_list_app. Qed.
+
+(** The loop against the hand-unrolled program, through the whole assembly (code generation of
+    everything before, the loop, everything after; the three passes; the writer blocks).  [lits]
+    are the literals written by hand in the blocks [{ v = lit  body }], one per iteration.  Both
+    assemblies fail with the same kind of error or both succeed with the same blocks; the label
+    listing of the loop program is the twin's minus the labels of the loop's own (internal) scopes
+    (a sublist; equal when those scopes define no label — labels defined directly in a .for body are
+    not listed by get_all_labels, which is the one observable difference: Proofs/Unroll.v,
+    UnrollExamples.loop_labels / flat_labels). *)
+From A816 Require Import Proofs.NonInterference Proofs.UnrollSim Proofs.Unroll.
+Theorem C10_for_unrolled_assembly : forall w r v lo hi b bfi fi0 fi fi' from to lits pre post,
+  (forall s' ns', code_gen_fuel w cg_depth {| cg_r := r; cg_macros := [] |} pre = Ok (s', ns') ->
+                  eval_raw w (cg_r s') lo = Ok from /\ eval_raw w (cg_r s') hi = Ok to) ->
+  length lits = Z.to_nat (to - from) -> literals_for w from lits ->
+  match assemble_ast w r (pre ++ AFor v lo hi b bfi fi0 :: post),
+        assemble_ast w r (pre ++ unrolled v lits b fi fi' ++ post) with
+  | Ok o1, Ok o2 => o_blocks o1 = o_blocks o2 /\ sublist (o_labels o1) (o_labels o2)
+  | Err j, Err k => j = k
+  | OutOfFuel, OutOfFuel => True
+  | _, _ => False
+  end.
+Proof. exact for_equals_unrolled_blocks. Qed.
+Theorem C10_for_unrolled_labels : forall w r v lo hi b bfi fi0 fi fi' from to lits pre post o1 o2,
+  (forall s' ns', code_gen_fuel w cg_depth {| cg_r := r; cg_macros := [] |} pre = Ok (s', ns') ->
+                  eval_raw w (cg_r s') lo = Ok from /\ eval_raw w (cg_r s') hi = Ok to) ->
+  length lits = Z.to_nat (to - from) -> literals_for w from lits ->
+  assemble_ast w r (pre ++ AFor v lo hi b bfi fi0 :: post) = Ok o1 ->
+  assemble_ast w r (pre ++ unrolled v lits b fi fi' ++ post) = Ok o2 ->
+  hidden_emptyb (r_scopes (o_final o1)) (r_scopes (o_final o2)) = true ->
+  o_blocks o1 = o_blocks o2 /\ o_labels o1 = o_labels o2.
+Proof. exact for_equals_unrolled_labels. Qed.
+(** Scope kinds are invisible to everything but the label listing: any two assemblies from states
+    that differ only in internal-vs-plain kinds, over node lists that differ only in how a loop
+    variable is bound, give the same blocks. *)
+Theorem C10_kind_invisible : forall w ns1 ns2 r1 r2,
+  Forall2 (nrel w) ns1 ns2 -> ksim r1 r2 -> res_rel ok (assemble_nodes w r1 ns1) (assemble_nodes w r2 ns2).
+Proof. exact assemble_nodes_k. Qed.
